@@ -270,10 +270,13 @@ class Parser:
         compiled_hints = None
         if hints_file.exists():
             hints_file_compiled = hints_file.with_suffix(".pgec")
-            if (
-                not hints_file_compiled.exists()
-                or grammar_file.stat().st_mtime > hints_file_compiled.stat().st_mtime
-                or hints_file.stat().st_mtime > hints_file_compiled.stat().st_mtime
+            # Compiled hints are keyed by LR states so they are stale if any of
+            # the grammar files (imported ones too) or the hints file is newer.
+            source_files = [grammar_file, hints_file]
+            source_files.extend(Path(f) for f in self.grammar.imported_files)
+            if not hints_file_compiled.exists() or any(
+                f.stat().st_mtime > hints_file_compiled.stat().st_mtime
+                for f in source_files
             ):
                 # Compilation is needed
                 compiled_hints = compile_errors(hints_file)
